@@ -42,6 +42,10 @@ def install_user_hooks(vm, allow=(), fork_truth=True):
         it.raise_("AttributeError", name)
 
     def call(it, v, args, kwargs):
+        if not isinstance(v, (UserVal, UserFn)):
+            # a third-party callable the engine has no contract for is NOT user data: undecided, not an effect
+            from pyvc.ctx import Unsupported
+            raise Unsupported(f"call of {v!r} (no contract for this external)")
         log("call", v)
         return UserVal(f"{getattr(v, 'name', 'x')}()")
 
